@@ -931,3 +931,42 @@ def derived_attributes(ctx, rule, names):
             e = inline(rs[0].value, single_defs(f.node))
             ctx.check(rule, f"{f.site()}::definition", N.key(e) in wants, f"{nm} == {DERIVED_ATTRS[nm][0]}",
                       f"`{nm}` is defined as `{U(e)[:100]}`, not as `{DERIVED_ATTRS[nm][0]}`: every caller that relies on its documented meaning is affected")
+
+
+# ---------------------------------------------------------------- constructor options are used
+def options_are_live(ctx, rule, class_qnames, exempt=()):
+    """`self.opt = opt` in a constructor is a promise that the object's behaviour depends on `opt`.  For the named classes every attribute
+    the constructor binds from one of its parameters is read (`self.opt` in load position) by some method of the class, its bases or its
+    subclasses.  An option that nothing reads is configuration that silently does nothing (a dropped keyword, a hard-coded default used
+    in its place).  `exempt` lists options that are unread on the reviewed tree."""
+    R = ctx.R
+    n = 0
+    for cq in class_qnames:
+        init = R.funcs.get(f"{cq}.__init__")
+        if init is None:
+            continue
+        params = set(init.params) - {"self"}
+        opts = {}
+        for x in walk_own(init.node):
+            if isinstance(x, ast.Assign) and len(x.targets) == 1 and isinstance(x.targets[0], ast.Attribute) and U(x.targets[0].value) == "self" \
+                    and ({y.id for y in ast.walk(x.value) if isinstance(y, ast.Name)} & params):
+                opts[x.targets[0].attr] = x
+        fam = set(R.mro(cq)) | set(R.subclasses(cq))
+        reads = set()
+        for q, f in R.funcs.items():
+            if f.class_q in fam and f.name != "__init__":
+                for x in ast.walk(f.node):
+                    if isinstance(x, ast.Attribute) and isinstance(x.ctx, ast.Load) and U(x.value) == "self":
+                        reads.add(x.attr)
+        # reads inside __init__ itself that feed another stored attribute count as use (derived configuration)
+        for x in ast.walk(init.node):
+            if isinstance(x, ast.Attribute) and isinstance(x.ctx, ast.Load) and U(x.value) == "self":
+                reads.add(x.attr)
+        for a in sorted(opts):
+            if (cq, a) in exempt or a in exempt:
+                continue
+            n += 1
+            ctx.check(rule, f"{cq.replace('batchie.', '')}.__init__::option `{a}` is read", a in reads, f"`self.{a}` is read by a method of the class",
+                      f"the constructor stores `self.{a}` but no method of the class (or its bases / subclasses) reads it: the option has no effect - "
+                      f"whatever was configured, a default or another value is used in its place")
+    ctx.need(n >= 1, f"options: no constructor option found in {list(class_qnames)}")
